@@ -203,10 +203,6 @@ func genMetric(t *rapid.T, o famGenOpts, ty dto.MetricType, i int) xMetric {
 		if rapid.IntRange(0, 9).Draw(t, "vunset") == 0 {
 			m.VUnset = true
 			m.V = 0
-			if ty == dto.MetricType_UNTYPED && !o.trig {
-				m.VUnset = false
-				*o.avoided++
-			}
 		}
 		if ty == dto.MetricType_COUNTER {
 			if rapid.IntRange(0, 2).Draw(t, "hasex") == 0 {
